@@ -169,6 +169,81 @@ def check(prog, run):
     regexrule.check(prog, run, r, VAL, "VALID_NAME_RE", name_ref, "a well-formed GraphQL name",
                     "schema validation accepts / rejects that name for every kind of schema element")
 
+    # ---- W2 covariance over wrappers: a table over the wrapper kinds of (type, super type)
+    r = run.rule("W2", "Schema.is_subtype over the nine combinations of wrapper kind (NonNull / List / named) of the candidate and the "
+                       "super type, for two different types: equal wrappers recurse on both inner types; a non-null candidate under a "
+                       "list or named super type recurses on its inner type only; a list candidate under anything else, and a named "
+                       "candidate under a wrapped super type, are rejected (path-consistent walk with the isinstance / type() atoms "
+                       "decided from the assumed kinds)", 8)
+    isub = prog.get_func(SCHEMA, "Schema.is_subtype")
+    run.looked_at(isub)
+    ps = [p for p in isub.params if p != prog.self_name(isub)]
+    shapes.require(len(ps) == 2, "C13.W2: is_subtype(type_, super_type) signature changed")
+    a, b = ps
+    from .. import boolx
+    KIND = {"NN": {"NonNullType", "WrappingType"}, "L": {"ListType", "WrappingType"}, "N": set()}
+
+    def want(k1, k2):
+        if k1 == k2 and k1 != "N":
+            return ("rec", "%s.type" % a, "%s.type" % b)
+        if k1 == "NN":
+            return ("rec", "%s.type" % a, b)
+        if k1 == "L" or k2 != "N":
+            return ("false",)
+        return None
+    for k1 in ("NN", "L", "N"):
+        for k2 in ("NN", "L", "N"):
+            w = want(k1, k2)
+            if w is None:
+                continue
+
+            def decide(t, k1=k1, k2=k2):
+                tt = t.replace(" ", "")
+                if tt == "%s==%s" % (a, b) or tt == "%sis%s" % (a, b):
+                    return False
+                if tt in ("type(%s)==type(%s)" % (a, b), "type(%s)istype(%s)" % (a, b), "type(%s)==type(%s)" % (b, a)):
+                    return k1 == k2
+                try:
+                    e = ast.parse(t, mode="eval").body
+                except SyntaxError:
+                    return None
+                if isinstance(e, ast.Call) and isinstance(e.func, ast.Name) and e.func.id == "isinstance" and len(e.args) == 2 and isinstance(e.args[0], ast.Name):
+                    named = {x.id for x in ast.walk(e.args[1]) if isinstance(x, ast.Name)}
+                    wrappers = {"NonNullType", "ListType", "WrappingType"}
+                    k = k1 if e.args[0].id == a else (k2 if e.args[0].id == b else None)
+                    if k is None:
+                        return None
+                    if named & wrappers:
+                        return bool(named & KIND[k])
+                    if k != "N":
+                        return False      # a wrapper is not an object / abstract / leaf type
+                return None
+            try:
+                _ev, exits = boolx.walk_under(isub.node, decide)
+            except ValueError as e:
+                raise AnalysisError("C13.W2: %s" % e)
+            r.instance("is_subtype(%s, %s): %d paths" % (k1, k2, len(exits)))
+            for kind, st, env in exits:
+                ok = False
+                if kind == "return" and st.value is not None:
+                    v = st.value
+                    atoms = {k: x for k, x in env.items() if k not in (boolx.CALLS, boolx.STMTS)}
+                    if w[0] == "rec":
+                        ok = isinstance(v, ast.Call) and isinstance(v.func, ast.Attribute) and v.func.attr == "is_subtype" and \
+                            [" ".join(ast.unparse(x).split()) for x in v.args] == [w[1], w[2]]
+                    else:
+                        try:
+                            ok = boolx.evaluate(v, atoms) is False
+                        except KeyError:
+                            ok = isinstance(v, ast.Constant) and v.value is False
+                if not ok:
+                    names = {"NN": "non-null", "L": "list", "N": "named"}
+                    run.report(r, "%s:Schema.is_subtype:kinds(%s,%s)" % (SCHEMA, k1, k2), isub.where(st) if st is not None else isub.where(),
+                               "for a %s candidate and a different %s super type is_subtype ends with `%s`, expected %s" % (
+                                   names[k1], names[k2], norm_stmt(st, 70) if st is not None else kind,
+                                   ("is_subtype(%s, %s)" % (w[1], w[2])) if w[0] == "rec" else "False"))
+                    break
+
     # ---- V5 loops over members run to completion
     r = run.rule("V5", "no member-checking loop (one whose body reports or delegates to validate_*/check_*) in a SchemaValidator method ends "
                        "early: no `break` and no `return` inside its body (a violation "
